@@ -198,6 +198,8 @@ def run(ctx):
     import xmllib as X_
     from . import xmlcommon as XC_
     strings = [s for s in strings if s and all(X_.xml10_char(ord(c)) and not XC_.discouraged(ord(c)) for c in s)] + ['a\u0085b', 'x \u0085\u00a0 y', '\u2028z']
+    # characters XML 1.0 can represent and calls discouraged: the property speaks of every character XML can represent
+    strings += ['a\x7fb', 'x \x80  y\x9f', 'q\U0001fffe\tr', '\ufdd0']
     for chunk in range(0, len(strings), 40):
         part = strings[chunk:chunk + 40]
         doc = OpenDocumentText()
@@ -210,7 +212,10 @@ def run(ctx):
             ctx.oracle_cases += 1
             got = teletype.extractText(p)
             if got != s:
-                ctx.violation('saved-roundtrip', s, got, s, {'chars': sorted(set(s) & set('\r\t\n'))})
+                if got == ''.join('\ufffd' if XC_.discouraged(ord(c)) else c for c in s):
+                    ctx.violation('saved-roundtrip', s, got, s, {'cause': 'discouraged-codepoint'})
+                else:
+                    ctx.violation('saved-roundtrip', s, got, s, {'chars': sorted(set(s) & set('\r\t\n'))})
         if len(ps) != len(part):
             ctx.violation('saved-roundtrip', part, len(ps), len(part), {})
 
